@@ -50,7 +50,7 @@ BreakByte == 255
 (*   -2  the bytes at p are not the start of a well-formed item            *)
 Trunc == -1
 Bad   == -2
-Cap(n) == IF IsSmall(n) THEN ToNat(n) ELSE 1073741824      \* counts beyond the input length are all alike
+Cap(n) == IF IsSmall(n) /\ ToNat(n) < 536870912 THEN ToNat(n) ELSE 536870912      \* counts beyond any input length are all alike (and 2 * Cap stays a TLC integer)
 
 RECURSIVE ItemEnd(_, _), ItemsEnd(_, _, _), IndefItems(_, _, _), Chunks(_, _, _)
 ItemsEnd(buf, p, k) == IF k = 0 THEN p ELSE
